@@ -378,16 +378,16 @@ theorem convService_refs (c : Ctx) (s : Service)
     simp only [hn] at hp he ⊢
     intro r hr
     have hpw : ((s.methods.map (walkMethod c s.basePath)).foldl (fun e w => e ++ w.eff) ({} : Eff)).panic = false := by
-      have : (Eff.add (Eff.add _ _) _).panic = false := hp
+      have : (Eff.add (Eff.add (Eff.add _ _) _) _).panic = false := hp
       simp only [Eff.add_panic, Bool.or_eq_false_iff] at this
-      exact this.1.1
+      exact this.1.1.1
     have hew : ((s.methods.map (walkMethod c s.basePath)).foldl (fun e w => e ++ w.eff) ({} : Eff)).errs = 0 := by
-      have : (Eff.add (Eff.add _ _) _).errs = 0 := he
+      have : (Eff.add (Eff.add (Eff.add _ _) _) _).errs = 0 := he
       simp only [Eff.add_errs] at this
       omega
     refine (key _ rfl hpw hew r hr).mono ?_
     intro x hx
-    exact List.mem_append_left _ (List.mem_append_left _ hx)
+    exact List.mem_append_left _ (List.mem_append_left _ (List.mem_append_left _ hx))
 
 /-! ## topics -/
 
